@@ -1,12 +1,472 @@
-//! C12 — ops evaluated on the real code and the generator of their inputs.
-#![allow(unused_imports, dead_code, clippy::all)]
+//! C12 — the structural predicates of graaf, evaluated on the real code.
+//!
+//!   pred_unary <desc>          => obs is_complete is_semicomplete is_tournament is_regular
+//!                                 is_balanced is_symmetric is_oriented is_simple unchanged
+//!   pred_rel   <descH> <descD> => obsH obsD H.is_subdigraph(D) H.is_superdigraph(D)
+//!                                 H.is_spanning_subdigraph(D)
+//!
+//! `obs` = `[order [vertices] [arcs]]` of the digraph as built (the driver's oracle evaluates
+//! the definitions on it).  `AdjacencyList::is_semicomplete` is threaded: the whole stream is
+//! run under the `taskset` masks of `props/C12.json`.
+#![allow(clippy::all)]
 
+use super::c02::{obs, Q};
 use crate::graphs::{self, Desc};
 use crate::rng::Rng;
 use crate::value::V;
+use graaf::{
+    IsBalanced, IsComplete, IsOriented, IsRegular, IsSemicomplete, IsSimple, IsSpanningSubdigraph, IsSubdigraph,
+    IsSuperdigraph, IsSymmetric, IsTournament,
+};
+use std::collections::BTreeSet;
+use std::panic::{catch_unwind, AssertUnwindSafe};
 
-pub fn eval(_op: &str, _args: &[V]) -> Option<Vec<V>> {
-    None
+pub trait P:
+    Q + IsComplete
+    + IsSemicomplete
+    + IsTournament
+    + IsRegular
+    + IsBalanced
+    + IsSymmetric
+    + IsOriented
+    + IsSimple
+    + IsSubdigraph
+    + IsSuperdigraph
+    + IsSpanningSubdigraph
+{
+}
+impl<T> P for T where
+    T: Q + IsComplete
+        + IsSemicomplete
+        + IsTournament
+        + IsRegular
+        + IsBalanced
+        + IsSymmetric
+        + IsOriented
+        + IsSimple
+        + IsSubdigraph
+        + IsSuperdigraph
+        + IsSpanningSubdigraph
+{
 }
 
-pub fn gen(_rng: &mut Rng, _thorough: bool, _emit: &mut dyn FnMut(String)) {}
+fn g(f: impl FnOnce() -> bool) -> V {
+    catch_unwind(AssertUnwindSafe(f)).map_or_else(|_| V::atom("panic"), V::bool)
+}
+
+fn unary<D: P>(d: &D) -> Vec<V> {
+    let c = d.clone();
+    vec![
+        obs(d),
+        g(|| d.is_complete()),
+        g(|| d.is_semicomplete()),
+        g(|| d.is_tournament()),
+        g(|| d.is_regular()),
+        g(|| d.is_balanced()),
+        g(|| d.is_symmetric()),
+        g(|| d.is_oriented()),
+        g(|| d.is_simple()),
+        V::bool(*d == c),
+    ]
+}
+
+fn rel<D: P>(h: &D, d: &D) -> Vec<V> {
+    vec![
+        obs(h),
+        obs(d),
+        g(|| h.is_subdigraph(d)),
+        g(|| h.is_superdigraph(d)),
+        g(|| h.is_spanning_subdigraph(d)),
+    ]
+}
+
+pub fn eval(op: &str, args: &[V]) -> Option<Vec<V>> {
+    match op {
+        "pred_unary" => {
+            let [d] = args else { return None };
+            let desc = Desc::parse(d)?;
+            Some(crate::with_digraph!(&desc, d => unary(&d)))
+        }
+        "pred_rel" => {
+            let [h, d] = args else { return None };
+            let (hd, dd) = (Desc::parse(h)?, Desc::parse(d)?);
+            if hd.repr != dd.repr {
+                return None;
+            }
+            Some(match hd.repr.as_str() {
+                "al" => rel(&hd.build_al(), &dd.build_al()),
+                "am" => rel(&hd.build_am(), &dd.build_am()),
+                "mx" => rel(&hd.build_mx(), &dd.build_mx()),
+                "el" => rel(&hd.build_el(), &dd.build_el()),
+                "wu" => rel(&hd.build_wu(), &dd.build_wu()),
+                "wi" => rel(&hd.build_wi(), &dd.build_wi()),
+                _ => return None,
+            })
+        }
+        _ => None,
+    }
+}
+
+// ---------------------------------------------------------------------------------------
+// generator
+// ---------------------------------------------------------------------------------------
+
+fn order_mix(rng: &mut Rng, max: usize) -> usize {
+    let r = rng.below(100);
+    let n = if r < 55 {
+        1 + rng.below(8)
+    } else if r < 82 {
+        9 + rng.below(32)
+    } else {
+        41 + rng.below(60)
+    };
+    n.min(max).max(1)
+}
+
+/// A pair of distinct vertices; biased towards the first / last rows (chunk boundaries).
+fn pick_pair(rng: &mut Rng, n: usize) -> (usize, usize) {
+    let u = match rng.below(4) {
+        0 => n - 1,
+        1 => 0,
+        _ => rng.below(n),
+    };
+    let mut v = rng.below(n);
+    if v == u {
+        v = (u + 1) % n;
+    }
+    (u, v)
+}
+
+fn tournament(rng: &mut Rng, n: usize) -> BTreeSet<(usize, usize)> {
+    let mut set = BTreeSet::new();
+    for u in 0..n {
+        for v in (u + 1)..n {
+            let _ = if rng.chance(1, 2) { set.insert((u, v)) } else { set.insert((v, u)) };
+        }
+    }
+    set
+}
+
+fn complete(n: usize) -> BTreeSet<(usize, usize)> {
+    (0..n).flat_map(|u| (0..n).filter(move |&v| v != u).map(move |v| (u, v))).collect()
+}
+
+/// Arc sets aimed at the predicates (true and false answers of each, shortcut defeaters).
+pub fn gen_pred_arcs(rng: &mut Rng, n: usize) -> (&'static str, Vec<(usize, usize)>) {
+    let (name, set): (&'static str, BTreeSet<(usize, usize)>) = match rng.below(18) {
+        0..=3 => {
+            let (name, arcs) = graphs::gen_arcs(rng, n);
+            (name, arcs.into_iter().collect())
+        }
+        4 => ("complete", complete(n)),
+        5 => {
+            // still semicomplete, neither complete nor a tournament
+            let mut s = complete(n);
+            if n >= 2 {
+                let p = pick_pair(rng, n);
+                let _ = s.remove(&p);
+            }
+            ("complete-minus-arc", s)
+        }
+        6 => {
+            let mut s = complete(n);
+            if n >= 2 {
+                let (u, v) = pick_pair(rng, n);
+                let _ = s.remove(&(u, v));
+                let _ = s.remove(&(v, u));
+            }
+            ("complete-minus-pair", s)
+        }
+        7 | 8 => ("tournament", tournament(rng, n)),
+        9 | 16 | 17 => {
+            // n(n-1)/2 arcs, one pair doubled, one pair missing: defeats the size shortcut
+            let mut s = tournament(rng, n);
+            if n >= 3 {
+                let (a, b) = pick_pair(rng, n);
+                let (c, d) = pick_pair(rng, n);
+                if (a.min(b), a.max(b)) != (c.min(d), c.max(d)) {
+                    let _ = s.insert((a, b));
+                    let _ = s.insert((b, a));
+                    let _ = s.remove(&(c, d));
+                    let _ = s.remove(&(d, c));
+                }
+            }
+            ("pseudo-tournament", s)
+        }
+        10 => {
+            let mut s = tournament(rng, n);
+            if n >= 2 {
+                let (u, v) = pick_pair(rng, n);
+                let _ = s.insert((u, v));
+                let _ = s.insert((v, u));
+            }
+            ("tournament-plus-arc", s)
+        }
+        11 => {
+            let mut s = tournament(rng, n);
+            if n >= 2 {
+                let (u, v) = pick_pair(rng, n);
+                let _ = s.remove(&(u, v));
+                let _ = s.remove(&(v, u));
+            }
+            ("tournament-minus-arc", s)
+        }
+        12 => {
+            // circulant: u -> u+1 .. u+k (mod n): regular and balanced
+            let k = if n > 1 { 1 + rng.below((n - 1).min(4)) } else { 0 };
+            let mut s = BTreeSet::new();
+            for u in 0..n {
+                for j in 1..=k {
+                    let _ = s.insert((u, (u + j) % n));
+                }
+            }
+            if rng.chance(1, 4) && n >= 3 {
+                // break regularity, keep balance: remove a whole cycle step? remove one arc
+                let p = *s.iter().nth(rng.below(s.len())).unwrap();
+                let _ = s.remove(&p);
+            }
+            ("circulant", s)
+        }
+        13 => {
+            // disjoint directed cycles + isolated vertices: balanced, regular only when spanning
+            let mut s = BTreeSet::new();
+            let mut start = 0;
+            while start < n {
+                let len = (1 + rng.below(5)).min(n - start);
+                if len >= 2 && rng.chance(3, 4) {
+                    for i in 0..len {
+                        let _ = s.insert((start + i, start + (i + 1) % len));
+                    }
+                }
+                start += len;
+            }
+            ("cycles", s)
+        }
+        14 => {
+            let mut s = BTreeSet::new();
+            for u in 0..n {
+                for v in (u + 1)..n {
+                    if rng.chance(1, 3) {
+                        let _ = s.insert((u, v));
+                        let _ = s.insert((v, u));
+                    }
+                }
+            }
+            if rng.chance(1, 4) && !s.is_empty() {
+                let p = *s.iter().nth(rng.below(s.len())).unwrap();
+                let _ = s.remove(&p);
+            }
+            ("symmetric~", s)
+        }
+        _ => ("empty", BTreeSet::new()),
+    };
+    let mut arcs: Vec<(usize, usize)> = set.into_iter().collect();
+    rng.shuffle(&mut arcs);
+    (name, arcs)
+}
+
+fn max_order(repr: &str) -> usize {
+    match repr {
+        "el" => 40,
+        "wu" | "wi" => 60,
+        _ => 100,
+    }
+}
+
+fn mk(repr: &str, verts: Vec<usize>, arcs: Vec<(usize, usize)>, rng: &mut Rng) -> Desc {
+    let weights = arcs
+        .iter()
+        .map(|_| match repr {
+            "wu" => i128::from(rng.range(0, 9)),
+            "wi" => i128::from(rng.range(-9, 9)),
+            _ => 1,
+        })
+        .collect();
+    Desc { repr: repr.to_string(), verts, arcs, weights }
+}
+
+const POOL: [usize; 12] = [0, 2, 3, 7, 11, 63, 64, 65, 100, 127, 128, 1000];
+
+/// Relabel a contiguous arc set onto sparse ids (AdjacencyMap only).
+fn sparse_ids(rng: &mut Rng, n: usize) -> Vec<usize> {
+    let mut ids = POOL.to_vec();
+    rng.shuffle(&mut ids);
+    ids.truncate(n);
+    ids.sort_unstable();
+    ids
+}
+
+/// `H` derived from `D` so that every relation is true reasonably often.
+fn gen_rel(rng: &mut Rng, repr: &str, emit: &mut dyn FnMut(String)) {
+    let sparse = repr == "am" && rng.chance(1, 2);
+    let n = if sparse { 1 + rng.below(12) } else { order_mix(rng, max_order(repr).min(60)) };
+    let ids: Vec<usize> = if sparse { sparse_ids(rng, n) } else { (0..n).collect() };
+    let (_, arcs0) = graphs::gen_arcs(rng, n);
+    let d_arcs: Vec<(usize, usize)> = arcs0.iter().map(|&(u, v)| (ids[u], ids[v])).collect();
+    let all_pairs: Vec<(usize, usize)> =
+        ids.iter().flat_map(|&u| ids.iter().filter(move |&&v| v != u).map(move |&v| (u, v))).collect();
+    let mut h_verts = ids.clone();
+    let mut h_arcs = d_arcs.clone();
+    let drop_some = |rng: &mut Rng, a: &mut Vec<(usize, usize)>| {
+        let k = 1 + rng.below(3);
+        for _ in 0..k {
+            if !a.is_empty() {
+                let i = rng.below(a.len());
+                let _ = a.swap_remove(i);
+            }
+        }
+    };
+    let add_some = |rng: &mut Rng, a: &mut Vec<(usize, usize)>| {
+        if all_pairs.is_empty() {
+            return;
+        }
+        let k = 1 + rng.below(3);
+        for _ in 0..k {
+            let p = *rng.pick(&all_pairs);
+            if !a.contains(&p) {
+                a.push(p);
+            }
+        }
+    };
+    match rng.below(10) {
+        0 => {} // equal
+        1 | 2 => drop_some(rng, &mut h_arcs),
+        3 | 4 => add_some(rng, &mut h_arcs),
+        5 => {
+            drop_some(rng, &mut h_arcs);
+            add_some(rng, &mut h_arcs);
+        }
+        6 => {
+            // H on fewer vertices (contiguous: a prefix; map: a subset of the keys)
+            if n >= 2 {
+                let m = 1 + rng.below(n - 1);
+                if sparse {
+                    let mut keep = ids.clone();
+                    rng.shuffle(&mut keep);
+                    keep.truncate(m);
+                    keep.sort_unstable();
+                    h_verts = keep;
+                } else {
+                    h_verts = (0..m).collect();
+                }
+                h_arcs.retain(|(u, v)| h_verts.contains(u) && h_verts.contains(v));
+                if rng.chance(1, 3) {
+                    drop_some(rng, &mut h_arcs);
+                }
+            }
+        }
+        7 => {
+            // H on more vertices
+            let extra = 1 + rng.below(3);
+            if sparse {
+                for x in POOL {
+                    if !h_verts.contains(&x) && h_verts.len() < n + extra {
+                        h_verts.push(x);
+                    }
+                }
+                h_verts.sort_unstable();
+            } else {
+                h_verts = (0..n + extra).collect();
+            }
+            if rng.chance(1, 2) {
+                let a = h_verts[rng.below(h_verts.len())];
+                let b = h_verts[h_verts.len() - 1];
+                if a != b {
+                    h_arcs.push((a, b));
+                }
+            }
+        }
+        8 if sparse => {
+            // same order, one key replaced: V(H) != V(D), nothing can hold (unless both arcless on it)
+            let k = rng.below(h_verts.len());
+            let old = h_verts[k];
+            if let Some(&new) = POOL.iter().find(|x| !h_verts.contains(x)) {
+                h_verts[k] = new;
+                h_verts.sort_unstable();
+                for a in h_arcs.iter_mut() {
+                    if a.0 == old {
+                        a.0 = new;
+                    }
+                    if a.1 == old {
+                        a.1 = new;
+                    }
+                }
+            }
+        }
+        _ => {
+            // unrelated digraph of a similar shape
+            let (_, other) = graphs::gen_arcs(rng, n);
+            h_arcs = other.iter().map(|&(u, v)| (ids[u], ids[v])).collect();
+        }
+    }
+    let d = mk(repr, ids, d_arcs, rng);
+    let h = mk(repr, h_verts, h_arcs, rng);
+    if rng.chance(1, 2) {
+        emit(format!("pred_rel {} {}", h.to_v(), d.to_v()));
+    } else {
+        emit(format!("pred_rel {} {}", d.to_v(), h.to_v()));
+    }
+}
+
+pub fn gen(rng: &mut Rng, thorough: bool, emit: &mut dyn FnMut(String)) {
+    if thorough {
+        // exhaustive small scope: all digraphs on <= 3 vertices (unary), all pairs on <= 2 x <= 3 (relational, al + am)
+        let mut small: Vec<(usize, Vec<(usize, usize)>)> = vec![];
+        for n in 1usize..=3 {
+            let pairs: Vec<(usize, usize)> =
+                (0..n).flat_map(|u| (0..n).filter(move |&v| v != u).map(move |v| (u, v))).collect();
+            for code in 0u32..(1 << pairs.len()) {
+                let arcs: Vec<(usize, usize)> =
+                    pairs.iter().enumerate().filter(|(i, _)| code >> i & 1 == 1).map(|(_, &p)| p).collect();
+                small.push((n, arcs));
+            }
+        }
+        for (n, arcs) in &small {
+            for repr in graphs::ALL_REPRS {
+                emit(format!("pred_unary {}", mk(repr, (0..*n).collect(), arcs.clone(), rng).to_v()));
+            }
+        }
+        for (n1, a1) in small.iter().filter(|(n, _)| *n <= 3) {
+            for (n2, a2) in small.iter().filter(|(n, _)| *n <= 2) {
+                for repr in ["al", "am", "mx", "el"] {
+                    let h = mk(repr, (0..*n1).collect(), a1.clone(), rng);
+                    let d = mk(repr, (0..*n2).collect(), a2.clone(), rng);
+                    emit(format!("pred_rel {} {}", h.to_v(), d.to_v()));
+                    emit(format!("pred_rel {} {}", d.to_v(), h.to_v()));
+                }
+            }
+        }
+    }
+    // smallest first: the first failing case is the one that gets shrunk and reported
+    let mut lines: Vec<(usize, String)> = vec![];
+    let n_unary = if thorough { 1000 } else { 150 };
+    for _ in 0..n_unary {
+        // the same arc set in every representation (orders capped per representation)
+        let n = order_mix(rng, 100);
+        let (_, arcs) = gen_pred_arcs(rng, n);
+        for repr in graphs::ALL_REPRS {
+            if n <= max_order(repr) {
+                lines.push((n, format!("pred_unary {}", mk(repr, (0..n).collect(), arcs.clone(), rng).to_v())));
+            }
+        }
+        // and on sparse map ids
+        if n <= 12 {
+            let ids = sparse_ids(rng, n);
+            let arcs: Vec<(usize, usize)> = arcs.iter().map(|&(u, v)| (ids[u], ids[v])).collect();
+            lines.push((n, format!("pred_unary {}", mk("am", ids, arcs, rng).to_v())));
+        }
+    }
+    let n_rel = if thorough { 900 } else { 110 };
+    for _ in 0..n_rel {
+        for repr in graphs::ALL_REPRS {
+            gen_rel(rng, repr, &mut |s: String| {
+                let len = s.len();
+                lines.push((len / 8, s));
+            });
+        }
+    }
+    lines.sort_by_key(|(k, s)| (*k, s.len()));
+    for (_, s) in lines {
+        emit(s);
+    }
+}
